@@ -194,10 +194,14 @@ META = dict(
     level_text=("Proof (precedence): for every expression tree of any depth the Pratt loop with the real binding table parses every "
                 "admissible writing of the tree (minimal brackets per the documented grammar, arbitrary redundant ones, the tokens on "
                 "any LINES) back to that tree, and conversely — for token lists of the fragment's alphabet — everything it accepts is such a writing of the tree it "
-                "returns (list elements may lack commas; those writings are not unique); the comma-separated grammar is unambiguous; fuel never runs out; table facts re-proved by decide on every "
+                "returns (list elements may lack commas; the forward direction admits a missing comma before an element that starts "
+                "with a literal or identifier, the other comma-less forms are line dependent and only in the converse); the "
+                "grammar is unambiguous; the driver's parseProgram agrees with parse on one-statement programs; fuel never runs out; table facts re-proved by decide on every "
                 "run. Proof (semantics): interpreter-style evaluation (helpers, evaluation order, text fallback of comparisons) = "
                 "per-operator reference semantics up to two known findings, for all trees / environments / numeric carriers; wrong-"
-                "kind operands are errors naming the operand; for exact rational arithmetic `//` is the floor of the quotient and `%` "
+                "kind operands are errors naming the operand; every error of the evaluation is an admissible one (about SOME offending "
+                "operand) and a tree with a value has no admissible error; every NUMBER token of the lexer model carries a text that "
+                "starts with a digit and ParseFloat accepts; for exact rational arithmetic `//` is the floor of the quotient and `%` "
                 "the truncated remainder. Tested, not proved: the model against the code (measured: ~65k quick / ~750k thorough evaluations, see evaluations), "
                 "IEEE behaviour of the float carrier, whitespace / keyword case / number splitting (Lean lexer model on the model "
                 "side, intended tokens, layout variants against their plain writing on the real code alone)."),
